@@ -1,5 +1,6 @@
 import NgoVerif.Meta.Meta2
 import NgoVerif.Meta.Compose
+import NgoVerif.Model.Unused
 /-!
 # C09 — unused removes or shrinks only what no output, constraint or objective can see
 
@@ -28,5 +29,74 @@ theorem C09_remove_unused_conv {α : Type} (P : HT.Prog α) (D : HT.Defs α) (hP
 theorem C09_observation {α : Type} (D : HT.Defs α) (T : HT.Interp α) (hno : ∀ a, D.A a → ¬ T a) :
     HT.AgreeOff D.A T (HT.ext D T) :=
   HT.agree_ext D T hno
+
+
+/-! ## decision kernel of the model of `unused.py` (`Model/Unused.lean`, tied to the code by `corr_unused.py`) -/
+open Unused
+
+theorem mem_range_lt {i n : Nat} (h : i < n) : i ∈ List.range n := List.mem_range.mpr h
+
+/-- **interface predicates are fully used**: every argument position of an input or output predicate is marked used
+by the usage scan, whatever the program looks like -/
+theorem C09_interface_positions_used (prg : Prog) (inputs outputs : List Pred) (p : Pred)
+    (hp : p ∈ inputs ∨ p ∈ outputs) (i : Nat) (hi : i < p.arity) :
+    posUsed (analyzeUsage prg inputs outputs) p i = true := by
+  unfold posUsed analyzeUsage
+  rw [List.any_eq_true]
+  refine ⟨fullEvent p, ?_, ?_⟩
+  · apply List.mem_append_right
+    apply List.mem_map.mpr
+    exact ⟨p, by simpa [List.mem_append] using hp, rfl⟩
+  · simp only [fullEvent, beq_self_eq_true, Bool.true_and, List.contains_iff_mem]
+    exact mem_range_lt hi
+
+/-- … and so are the predicates named by a `#show p/n.` statement -/
+theorem C09_shown_positions_used (prg : Prog) (inputs outputs : List Pred) (n : String) (a : Nat) (pos : Bool)
+    (hs : Stm.showSig n a pos ∈ prg) (i : Nat) (hi : i < a) :
+    posUsed (analyzeUsage prg inputs outputs) ⟨n, a⟩ i = true := by
+  unfold posUsed analyzeUsage
+  rw [List.any_eq_true]
+  refine ⟨fullEvent ⟨n, a⟩, ?_, ?_⟩
+  · apply List.mem_append_left
+    exact List.mem_flatMap.mpr ⟨_, hs, by simp [stmEvents]⟩
+  · simp only [fullEvent, beq_self_eq_true, Bool.true_and, List.contains_iff_mem]
+    exact mem_range_lt hi
+
+theorem keepUsed_all (ev : List Event) (p : Pred) :
+    ∀ (as : List Term) (i : Nat), (∀ j, i ≤ j → j < i + as.length → posUsed ev p j = true) → keepUsed ev p i as = as
+  | [], _, _ => rfl
+  | a :: as, i, h => by
+    simp only [keepUsed, h i (Nat.le_refl _) (by simp), if_true]
+    rw [keepUsed_all ev p as (i + 1) (fun j hj hj' => h j (by omega) (by simp only [List.length_cons]; omega))]
+
+/-- **atoms over interface predicates keep all their arguments** (and their name): `project_used_positions` leaves
+them alone -/
+theorem C09_interface_atoms_kept (prg : Prog) (inputs outputs : List Pred) (memo : List ((Pred × Pred) × String))
+    (name : String) (args : List Term) (ext : Bool)
+    (hp : (⟨name, args.length⟩ : Pred) ∈ inputs ∨ (⟨name, args.length⟩ : Pred) ∈ outputs) :
+    transformSym (analyzeUsage prg inputs outputs) memo (.fn name args ext) = .fn name args ext := by
+  have hk : keepUsed (analyzeUsage prg inputs outputs) ⟨name, args.length⟩ 0 args = args :=
+    keepUsed_all _ _ args 0 (fun j _ hj => C09_interface_positions_used prg inputs outputs _ hp j (by simpa using hj))
+  simp [transformSym, target?, hk]
+
+/-- **rules defining an interface predicate are never removed as unused** -/
+theorem C09_interface_rules_kept (prg : Prog) (inputs outputs added : List Pred) (l c : Nat) (name : String)
+    (args : List Term) (ext : Bool) (b : List BLit)
+    (hp : (⟨name, args.length⟩ : Pred) ∈ inputs ∨ (⟨name, args.length⟩ : Pred) ∈ outputs) :
+    removable (analyzeUsage prg inputs outputs) added (.rule l c (.lit (.pos, .sym (.fn name args ext))) b) = false := by
+  have hu : isUsed (analyzeUsage prg inputs outputs) ⟨name, args.length⟩ = true := by
+    unfold isUsed analyzeUsage
+    rw [List.any_eq_true]
+    exact ⟨fullEvent _, List.mem_append_right _ (List.mem_map.mpr ⟨_, by simpa [List.mem_append] using hp, rfl⟩),
+      by simp [fullEvent]⟩
+  simp [removable, hu]
+
+/-- only plain rules are ever removed: constraints, choices, objectives and directives stay -/
+theorem C09_only_plain_rules_removed (ev : List Event) (added : List Pred) (s : Stm) (h : removable ev added s = true) :
+    ∃ l c name args ext b, s = .rule l c (.lit (.pos, .sym (.fn name args ext))) b := by
+  unfold removable at h
+  split at h
+  · rename_i l c name args ext b; exact ⟨l, c, name, args, ext, b, rfl⟩
+  · cases h
 
 end NgoVerif
